@@ -28,9 +28,11 @@ from .ctor import Init
 
 
 class FlatIter(Contract):
-    """ASSUMED contract (caller side only, listed in the evidence) of the flattened iterators with t=None:
-    DynGraph.interactions_iter(): each unordered pair that ever interacted exactly once, in one of its two
-    orientations, with its edge data; DynDiGraph.out_interactions_iter(): each stored edge once, oriented."""
+    """Caller-side form of the contract of the flattened iterators with t=None, PROVED in contracts/iters.py
+    (InteractionsIter / OutInteractionsIter): DynGraph.interactions_iter(): each unordered pair that ever interacted
+    exactly once, in one of its two orientations, with its edge data; DynDiGraph.out_interactions_iter(): each stored
+    edge once, oriented.  The restatement of the proved multiplicity form Y(a,b) + Y(b,a) = [Ever(a,b)] as a bag with an
+    orientation choice ori(a,b) := (Y(a,b) = 1) is by inspection."""
 
     def __init__(self, cls):
         self.cls = cls
@@ -50,7 +52,7 @@ class FlatIter(Contract):
             ctx.assume(FA([a_, b_], z3.Implies(a_ != b_, ori(a_, b_) != ori(b_, a_)), [ori(a_, b_)]), 'call')
             member = lambda a, b: z3.And(C[a][b] != 0, z3.Or(a == b, ori(a, b)))
             self.ori = ori
-        ctx.notes.append('assumed contract: %s' % self.key)
+        ctx.notes.append('callee contract %s (proved in contracts/iters.py)' % self.key)
         return VBag([Node, Node], member, lambda a, b: VTuple([VNode(a), VNode(b), VEdgeData(g, C[a][b])]), note=self.key)
 
 
